@@ -505,6 +505,11 @@ def handle (sess : Sess) (rep : Report) (ln : Nat) (toks : List String) (obs : S
     | _, _, _ => (sess, rep.msg s!"BAD line={ln}")
   | _ =>
     if !sess.active then (sess, rep.bump "pool.skipped_after_divergence") else
+    -- `done … err=discarded`: Done(DoneInfo{}) — to the code (and so to the model) a successful completion with
+    -- an empty reply; to the monitors the discarded pick it really is
+    let isDiscard := toks.head? == some "done" && toks.contains "err=discarded"
+    let toks := if isDiscard then toks.map fun t => if t == "err=discarded" then "err=nil" else t else toks
+    let sess := if isDiscard then { sess with mon := { sess.mon with discardNext := true } } else sess
     match parseOp toks obs with
     | none => (sess, rep.msg s!"BAD line={ln}")
     | some op =>
